@@ -215,6 +215,26 @@ Theorem C13_link_file_part_old_refuted :
 Proof. exact link_file_part_refuted. Qed.
 Print Assumptions C13_link_file_part_old_refuted.
 
+Theorem C13_link_path_part_old_refuted :
+  exists bs, on_open legacy bs (fun f r => clean (get_link_path legacy f (0, 884) 5200 5200) = true /\
+                                           is_out (chase_link legacy f (0, 884)) (OOBW 8)) False.
+Proof. exact link_path_part_refuted. Qed.
+Print Assumptions C13_link_path_part_old_refuted.
+(* a payload of 4901 characters without separator overflows link_path[4097] -- also when the guard for that shape is
+   the ONLY one missing ([without 3]: every other repair in place) *)
+Theorem C13_link_no_separator_old_refuted :
+  exists bs, on_open legacy bs (fun f r => clean (get_link_path legacy f (0, 884) 5200 5200) = true /\
+                                           is_out (chase_link legacy f (0, 884)) (OOBW 8)) False /\
+             on_open (without 3) bs (fun f r => is_out (chase_link (without 3) f (0, 884)) (OOBW 8)) False.
+Proof. exact link_no_separator_refuted. Qed.
+Print Assumptions C13_link_no_separator_old_refuted.
+Example C13_link_guards_independent :
+  on_open (without 1) wit_longfile (fun f r => is_out (chase_link (without 1) f (0, 884)) (OOBW 8)) False /\
+  on_open (without 2) wit_longpath (fun f r => is_out (chase_link (without 2) f (0, 884)) (OOBW 8)) False /\
+  on_open repaired wit_longpath (fun f r => chase_link repaired f (0, 884)) (Err 0) = Err 4 /\
+  on_open repaired wit_nosep (fun f r => chase_link repaired f (0, 884)) (Err 0) = Err 4.
+Proof. exact link_guards_independent. Qed.
+
 (* 04. a link whose target path passes through the link itself: Get_Node_ID -> chase_link -> Get_Node_ID ... nests
    deeper than any fuel (in the C: unbounded recursion, link_depth is a local of each activation) *)
 Theorem C13_link_recursion_old_refuted :
